@@ -662,15 +662,44 @@ func c17Guards(p *Prog, r *Report) {
 		return
 	}
 	info := fi.Pkg.TypesInfo
-	var recv types.Object
-	if len(fi.Decl.Recv.List[0].Names) == 1 {
-		recv = info.Defs[fi.Decl.Recv.List[0].Names[0]]
+	// the two loops may sit in Get itself or in a stage helper of the package; they may range over the
+	// collection or index it
+	type loopRef struct {
+		owner *FuncInfo
+		body  *ast.BlockStmt
+		val   types.Object // range value variable (nil for index loops)
+		node  ast.Node
 	}
-	loops := rangeLoops(fi.Decl.Body)
-	var rootLoop, dirLoop *ast.RangeStmt
-	for _, l := range loops {
+	var all []loopRef
+	var gather func(owner *FuncInfo, depth int, seen map[string]bool)
+	gather = func(owner *FuncInfo, depth int, seen map[string]bool) {
+		walkNoLit(owner.Decl.Body, func(x ast.Node) bool {
+			switch l := x.(type) {
+			case *ast.RangeStmt:
+				lr := loopRef{owner: owner, body: l.Body, node: l}
+				if l.Value != nil {
+					lr.val = objOf(info, l.Value)
+				}
+				all = append(all, lr)
+			case *ast.ForStmt:
+				all = append(all, loopRef{owner: owner, body: l.Body, node: l})
+			case *ast.CallExpr:
+				if depth > 0 {
+					if callee := p.staticCallee(owner.Pkg, l); callee != nil && callee.Pkg == owner.Pkg && !seen[callee.Key] {
+						seen[callee.Key] = true
+						gather(callee, depth-1, seen)
+					}
+				}
+			}
+			return true
+		})
+	}
+	gather(fi, 2, map[string]bool{fi.Key: true})
+	var rootLoop, dirLoop *loopRef
+	for i := range all {
+		l := &all[i]
 		calls := map[string]bool{}
-		ast.Inspect(l.Body, func(x ast.Node) bool {
+		ast.Inspect(l.body, func(x ast.Node) bool {
 			if c, ok := x.(*ast.CallExpr); ok {
 				if p.callIs(fi.Pkg, c, kDirRepoRemove) {
 					calls["remove"] = true
@@ -688,21 +717,27 @@ func c17Guards(p *Prog, r *Report) {
 		}
 	}
 	if rootLoop == nil || dirLoop == nil {
-		r.Viol("C17.b", kDirGet+"#loops", p.pos(fi.Decl), "the per-root creation loop or the rotation loop is missing")
+		if p.funcCallsDeep(fi, p.keysPred(kDirRepoCreate)) && p.funcCallsDeep(fi, p.keysPred(kDirRepoRemove)) {
+			r.Undecided("C17.b", kDirGet+"#loops", p.pos(fi.Decl), "the per-root creation loop or the rotation loop was not recognised (create and remove are still called)")
+		} else {
+			r.Viol("C17.b", kDirGet+"#loops", p.pos(fi.Decl), "the per-root creation loop or the rotation loop is missing")
+		}
 		return
 	}
 	const limit = 100
-	evalBody := func(loop *ast.RangeStmt, count int64) (creates, removes bool, resetCount, newName, sameRoot bool, err error) {
-		body := p.NewFlat(fi.Pkg, loop.Body)
-		valObj := objOf(info, loop.Value)
+	evalBody := func(loop *loopRef, count int64) (creates, removes bool, resetCount, newName, sameRoot bool, err error) {
+		body := p.NewFlat(fi.Pkg, loop.body)
+		valObj := loop.val
 		env := &Env{P: p, Pkg: fi.Pkg, Vars: map[types.Object]*Val{}}
-		env.Vars[recv] = &Val{Ptr: &Val{Fields: map[string]*Val{"maxCount": intVal(limit)}}}
+		if recv := paramObjs(loop.owner)[-1]; recv != nil {
+			env.Vars[recv] = &Val{Ptr: &Val{Fields: map[string]*Val{"maxCount": intVal(limit)}}}
+		}
 		item := &Val{Fields: map[string]*Val{"Count": intVal(count), "Path": strVal("/r"), "Root": strVal("/r"), "Name": strVal("old"), "Free": intVal(1)}}
 		env.Hook = func(env *Env, e ast.Expr) (*Val, bool) {
 			if env.Pkg != fi.Pkg {
 				return nil, false
 			}
-			if id, ok := e.(*ast.Ident); ok && objOf(info, id) == valObj {
+			if id, ok := e.(*ast.Ident); ok && valObj != nil && objOf(info, id) == valObj {
 				return item, true
 			}
 			if id, ok := e.(*ast.Ident); ok {
@@ -756,7 +791,7 @@ func c17Guards(p *Prog, r *Report) {
 	for _, cnt := range []int64{0, 1, 5} {
 		creates, _, _, _, _, err := evalBody(rootLoop, cnt)
 		if err != nil {
-			r.Undecided("C17.b", kDirGet+"#create-guard", p.pos(rootLoop), err.Error())
+			r.Undecided("C17.b", kDirGet+"#create-guard", p.pos(rootLoop.node), err.Error())
 			good = false
 			break
 		}
@@ -765,10 +800,10 @@ func c17Guards(p *Prog, r *Report) {
 			detail = fmt.Sprintf("a root with %d sub-directories: create=%v", cnt, creates)
 		}
 	}
-	r.Check(good, "C17.b", kDirGet+"#create-guard", p.pos(rootLoop), "a sub-directory is created iff the root has none", "the per-root creation guard is wrong ("+detail+"): a configured root without sub-directory is never used, or every Set creates a new directory")
+	r.Check(good, "C17.b", kDirGet+"#create-guard", p.pos(rootLoop.node), "a sub-directory is created iff the root has none", "the per-root creation guard is wrong ("+detail+"): a configured root without sub-directory is never used, or every Set creates a new directory")
 	// created directory: Name from generator, Root from the root's path
 	nameOK, rootOK := false, false
-	ast.Inspect(rootLoop.Body, func(x ast.Node) bool {
+	ast.Inspect(rootLoop.body, func(x ast.Node) bool {
 		if kv, ok := x.(*ast.KeyValueExpr); ok {
 			if id, ok := kv.Key.(*ast.Ident); ok {
 				if id.Name == "Name" {
@@ -777,23 +812,30 @@ func c17Guards(p *Prog, r *Report) {
 					}
 				}
 				if id.Name == "Root" {
-					if sel, ok := ast.Unparen(kv.Value).(*ast.SelectorExpr); ok && sel.Sel.Name == "Path" && objOf(info, sel.X) == objOf(info, rootLoop.Value) {
-						rootOK = true
+					if sel, ok := ast.Unparen(kv.Value).(*ast.SelectorExpr); ok && sel.Sel.Name == "Path" {
+						// the element of the loop: its range variable, or an index into the collection
+						if rootLoop.val != nil && objOf(info, sel.X) == rootLoop.val {
+							rootOK = true
+						}
+						if _, isIx := ast.Unparen(sel.X).(*ast.IndexExpr); isIx && rootLoop.val == nil {
+							rootOK = true
+						}
 					}
 				}
 			}
 		}
 		return true
 	})
-	r.Check(nameOK && rootOK, "C17.b", kDirGet+"#created-dir", p.pos(rootLoop), "new directory: generated name under the configured root", "a created directory does not take a generated name under the configured root's path")
+	r.Check(nameOK && rootOK, "C17.b", kDirGet+"#created-dir", p.pos(rootLoop.node), "new directory: generated name under the configured root", "a created directory does not take a generated name under the configured root's path")
 	// creation precedes the listing and is error-gated
 	f := p.FlatOf(fi)
 	f.CheckChain(r, "C17.b", fi, []step{
 		{Name: "roots listed", Keys: []string{kDirRepoRoots}},
 		{Name: "directories listed", Keys: []string{kDirRepoGet}},
 	})
-	for _, s := range f.CallSites(kDirRepoCreate, kDirRepoRemove) {
-		f.SiteConsumed(r, "C17.c", kDirGet+"#"+types.ExprString(s.Call.Fun)+"-error", fi, s, flowOpts{Class: true})
+	fe := p.FlatInl(fi)
+	for _, s := range fe.CallSites(kDirRepoCreate, kDirRepoRemove) {
+		fe.SiteConsumed(r, "C17.c", kDirGet+"#"+types.ExprString(s.Call.Fun)+"-error", fi, s, flowOpts{Class: true})
 	}
 	// C17.c
 	good = true
@@ -801,7 +843,7 @@ func c17Guards(p *Prog, r *Report) {
 	for _, cnt := range []int64{limit - 1, limit, limit + 1} {
 		creates, removes, reset, newName, sameRoot, err := evalBody(dirLoop, cnt)
 		if err != nil {
-			r.Undecided("C17.c", kDirGet+"#rotation-guard", p.pos(dirLoop), err.Error())
+			r.Undecided("C17.c", kDirGet+"#rotation-guard", p.pos(dirLoop.node), err.Error())
 			good = false
 			break
 		}
@@ -815,9 +857,9 @@ func c17Guards(p *Prog, r *Report) {
 			detail = fmt.Sprintf("rotation at %d entries: count reset=%v, fresh name=%v, same root=%v", cnt, reset, newName, sameRoot)
 		}
 	}
-	r.Check(good, "C17.c", kDirGet+"#rotation-guard", p.pos(dirLoop), "rotate iff count >= limit; fresh name, same root, count 0", "the rotation guard is wrong ("+detail+"): a directory at its limit receives another file, or directories are rotated early")
+	r.Check(good, "C17.c", kDirGet+"#rotation-guard", p.pos(dirLoop.node), "rotate iff count >= limit; fresh name, same root, count 0", "the rotation guard is wrong ("+detail+"): a directory at its limit receives another file, or directories are rotated early")
 	// order Remove -> Create within the rotation body
-	body := p.NewFlat(fi.Pkg, dirLoop.Body)
+	body := p.NewFlat(fi.Pkg, dirLoop.body)
 	rem := body.CallNodes(kDirRepoRemove)
 	cre := body.CallNodes(kDirRepoCreate)
 	ok := len(rem) > 0 && len(cre) > 0
@@ -826,7 +868,7 @@ func c17Guards(p *Prog, r *Report) {
 			ok = false
 		}
 	}
-	r.Check(ok, "C17.c", kDirGet+"#remove-before-create", p.pos(dirLoop), "the full directory is unregistered before its replacement is created", "the replacement directory is created before the full one is unregistered")
+	r.Check(ok, "C17.c", kDirGet+"#remove-before-create", p.pos(dirLoop.node), "the full directory is unregistered before its replacement is created", "the replacement directory is created before the full one is unregistered")
 }
 
 func c17Clamp(p *Prog, r *Report) {
